@@ -36,6 +36,7 @@ fn generate(rng: &mut Rng) -> C17Sc {
             spec.mute_after = Some(rng.range(0, 3) as usize); // goes silent: bounded by the timeout
         }
         spec.close_on_end_ns = Some(0);
+        spec.coalesce = rng.chance(1, 2);
         clients.push(NetClient { connect_at_ns: t, peer: format!("10.1.{}.{}:{}", i / 100, 1 + i % 100, 41_000 + i), spec, wplan: vec![] });
     }
     clients.sort_by_key(|c| c.connect_at_ns);
